@@ -24,6 +24,17 @@ def _literal_error_names(func):
     return sorted(names)
 
 
+def _default_accessible(func):
+    """string literals `x` of assignments `modulename, pname = specifier, x` in `func`"""
+    names = set()
+    tree = ast.parse(inspect.getsource(func).expandtabs().replace('\n    ', '\n').lstrip())
+    for node in ast.walk(tree):
+        if isinstance(node, ast.Assign) and isinstance(node.value, ast.Tuple) and len(node.value.elts) == 2 \
+                and isinstance(node.value.elts[1], ast.Constant) and isinstance(node.value.elts[1].value, str):
+            names.add(node.value.elts[1].value)
+    return sorted(names)
+
+
 def secop_classes():
     import frappy.errors as fe
     names = []
@@ -62,6 +73,23 @@ def generate():
         raise RuntimeError(f'client UPDATE_MESSAGES has unsolicited actions unknown to the C07 model: {unsolicited}')
     out.append('/-- actions of lines that are not replies: update, error_update, log, help text line -/')
     out.append('def asyncActions : List (List Nat) := ' + llist(f'{lbytes(c)}  /- {c} -/\n  ' for c in async_actions))
+    # requests that reach a module and may change what later requests are answered: reading polls the hardware,
+    # changing writes a parameter, a command does whatever it does.  No other request has an effect on answers.
+    state_actions = [m.READREQUEST, m.WRITEREQUEST, m.COMMANDREQUEST]
+    out.append('/-- READREQUEST, WRITEREQUEST, COMMANDREQUEST: the requests carried out by a module -/')
+    out.append('def stateActions : List (List Nat) := ' + llist(f'{lbytes(c)}  /- {c} -/\n  ' for c in state_actions))
+    for name, val in [('readRequest', m.READREQUEST), ('writeRequest', m.WRITEREQUEST), ('commandRequest', m.COMMANDREQUEST),
+                      ('pingRequest', m.HEARTBEATREQUEST), ('activateRequest', m.ENABLEEVENTSREQUEST),
+                      ('deactivateRequest', m.DISABLEEVENTSREQUEST), ('loggingRequest', m.LOGGING_REQUEST)]:
+        out.append(f'def {name} : List Nat := {lbytes(val)}  -- {val!r}')
+    # the dispatcher's own error class and the default accessibles of `read <module>` / `change <module>`
+    import frappy.errors as fe
+    out.append(f'def protocolError : List Nat := {lbytes(fe.ProtocolError.name)}  -- ProtocolError.name')
+    for name, func in [('valueName', Dispatcher.handle_read), ('targetName', Dispatcher.handle_change)]:
+        lits = _default_accessible(func)
+        if len(lits) != 1:
+            raise RuntimeError(f'{func.__name__}: default accessible literals {lits}; the model knows exactly one')
+        out.append(f'def {name} : List Nat := {lbytes(lits[0])}  -- {lits[0]!r}: default accessible in {func.__name__}')
     out.append(f'def eol : Nat := {itf.EOL[0]}')
     out.append(f'def helpLineCount : Nat := {len(m.HelpMessage.splitlines())}')
     out.append("def helpLineAction : List Nat := " + lbytes('_') + "  -- handle_help sends ('_', idx+1, line)")
